@@ -73,9 +73,14 @@ def thorough_models(dev_names=()):
                       note='A queues 2 bundles of 0/1/3 octets; terminate anywhere on either side'),
         session_model('MC_t2', '{0,3}', B11, MRU, INI, BOTHQ, '{"A"}', '{}', timeout=3000,
                       note='one bundle of 0/3 octets each way, partial socket acceptance, A terminates anywhere'),
-        session_model('MC_live', '{0,3}', A1, MRU, INI, BOTHQ, BOTH, '{}', fair=True,
+        session_model('MC_live', '{0,3}', A1, MRU, INI, BOTHQ, BOTH, '{}', fair=True, dev='{"busy_wait_abstracted"}',
                       props=('TermLive', 'Terminates'), timeout=3000,
-                      note='liveness under weak fairness: termination always completes, runs always quiesce'),
+                      note='liveness under weak fairness (busy wait of the queue source abstracted): termination '
+                           'always completes, the event loops always run out of work'),
+        session_model('MC_live_dev', '{0,3}', A1, MRU, INI, BOTHQ, BOTH, '{}', fair=True, expect='violation',
+                      dev='{"busy_wait_abstracted", "zero_length_stuck"}', props=('TermLive', 'Terminates'),
+                      enforced='{}', timeout=3000,
+                      note='a zero-length transfer that never leaves the queue must violate the liveness properties'),
     ]
     return runs
 
